@@ -215,6 +215,7 @@ def one_case(ctx, case, known_probe=False):
              | {"impl": {k: impl.get(k) for k in ("stop", "last_epoch", "fired", "error")}})
     for k in ("criterion", "ek", "patience", "pe", "ps", "eval_first", "tol", "family", "kindmode"):
         ctx.count(f"{k}={case[k]}")
+    ctx.count("quantity_name=" + ("plain" if case["name"] == "Q" else "own-attribute/odd"))
     ctx.count("outcome=" + ("error:" + impl["error"] if "error" in impl else ("stop" if impl["stop"] else "no-stop")))
     ctx.count("compared" if compared else "never-compared")
     if case["pre"]:
@@ -269,6 +270,12 @@ TOLS = [0.0, 1e-3, 1.0, float("inf")]
 FAMILIES = ["monotone", "oscillating", "constant", "zeros", "plateau"]
 
 
+# the monitored quantity may have ANY name, in particular one the evaluator also uses for an attribute / property / method of
+# its own or for a statistic (chosen from the case parameters, not from the rng, so the value streams are unchanged)
+QUANTITY_NAMES = ["Q", "log", "period", "last", "Q", "past_values", "epochs", "get_value", "mean", "variance", "", "means",
+                  "__len__", "system", "metrics", "a b", "verbose", "names"]
+
+
 def mk_case(rng, criterion, p, pe, ps, eval_first, tol, family, kindmode, start=1, pre_len=0, deprecated=False, extra=None):
     n_pre = pre_len
     n = (p + 2) * pe + rng.choice([1, 2, 3, 4])
@@ -287,7 +294,8 @@ def mk_case(rng, criterion, p, pe, ps, eval_first, tol, family, kindmode, start=
     vkinds = make_kinds(rng, kindmode, total)
     case = {"criterion": criterion, "criterion_str": rng.choice([criterion, criterion.upper(), "  " + criterion.capitalize() + "\n"]),
             "ek": ek, "patience": p, "patience_arg": rng.choice([p, p, p + 0.7]), "pe": pe, "ps": ps, "eval_first": eval_first, "tol": tol,
-            "family": family, "kindmode": kindmode, "name": "Q", "pre": pre, "cands": cands, "vals": vals, "kinds": kinds,
+            "family": family, "kindmode": kindmode, "name": QUANTITY_NAMES[(7 * p + 3 * pe + ps + total + len(family)) % len(QUANTITY_NAMES)],
+            "pre": pre, "cands": cands, "vals": vals, "kinds": kinds,
             "vars": vars_, "vkinds": vkinds, "deprecated": deprecated, "valid": True}
     if extra:
         case.update(extra)
